@@ -1,5 +1,5 @@
 (* C19_lemmas.v — auxiliary facts for C19_html.v: escaping as a character map, compositional
-   "chunks" of report text for the tag stripper, the writer monad, numerals and designators. *)
+   "chunks" of report text for the tag stripper, the writer monad, numerals. *)
 From Coq Require Import String Lia.
 From PX.Lib Require Import Base PyStr.
 From PX.Model Require Import Path Segment Errh ErrIter OutW Html.
@@ -289,7 +289,7 @@ Proof.
     apply wspec_iter. intros k Hk. apply wspec_ele_errors. intros e He. apply (G k e Hk He).
 Qed.
 
-(* ---------- numerals: dec_val inverts fmt_d / fmt_02 ---------- *)
+(* ---------- numerals: dec_val inverts fmt_d ---------- *)
 
 Lemma digit_char_ok : forall d, d < 10 -> is_digit (digit_char d) = true /\ digit_val (digit_char d) = d /\
                                           (d <> 0 -> digit_char d <> "0").
@@ -336,165 +336,6 @@ Proof.
   rewrite E, app_nil_r. auto.
 Qed.
 
-Lemma fmt_d_wf_sub n : n <> 0%N -> wf_sub (fmt_d n) = true.
-Proof.
-  intros NZ. destruct (fmt_d_spec n) as (A & _ & NE & HD). specialize (HD NZ).
-  unfold wf_sub. destruct (fmt_d n) as [|a u]; [congruence|]. rewrite A. cbn [hd] in HD.
-  apply Ascii.eqb_neq in HD. rewrite HD. reflexivity.
-Qed.
-
-Lemma fmt_02_small : forall i, 1 <= i <= 99 ->
-  wf_ele (fmt_02 (N.of_nat i)) = true /\ dec_val (fmt_02 (N.of_nat i)) = N.of_nat i.
-Proof.
-  assert (H : forallb (fun i => wf_ele (fmt_02 (N.of_nat i)) && N.eqb (dec_val (fmt_02 (N.of_nat i))) (N.of_nat i))
-                      (seq 1 99) = true) by (vm_compute; reflexivity).
-  intros i Hi. rewrite forallb_forall in H. specialize (H i). rewrite in_seq in H. specialize (H ltac:(lia)).
-  apply andb_true_iff in H as [H1 H2]. apply N.eqb_eq in H2. auto.
-Qed.
-
-Lemma dec_val_short u : all_digits u = true -> length u <= 2 -> (dec_val u <= 99)%N.
-Proof.
-  intros A L. destruct u as [|a [|b [|c u]]]; cbn [length] in L; try lia.
-  - cbn. lia.
-  - cbn [all_digits forallb] in A. apply andb_true_iff in A as [A _].
-    destruct (digit_char_val a A) as [_ Ha]. unfold dec_val. cbn [fold_left]. lia.
-  - cbn [all_digits forallb] in A. apply andb_true_iff in A as [A A']. apply andb_true_iff in A' as [B _].
-    destruct (digit_char_val a A) as [_ Ha]. destruct (digit_char_val b B) as [_ Hb].
-    unfold dec_val. cbn [fold_left]. lia.
-Qed.
-
-Lemma fmt_02_big i : 100 <= i -> all_digits (fmt_02 (N.of_nat i)) = true /\ 3 <= length (fmt_02 (N.of_nat i)).
-Proof.
-  intros Hi. destruct (fmt_d_spec (N.of_nat i)) as (A & V & _ & _).
-  assert (L : 3 <= length (fmt_d (N.of_nat i))).
-  { destruct (le_lt_dec 3 (length (fmt_d (N.of_nat i)))) as [|S]; [assumption|].
-    pose proof (dec_val_short _ A ltac:(lia)). lia. }
-  unfold fmt_02. cbv zeta. destruct (Nat.ltb_spec (length (fmt_d (N.of_nat i))) 2); [lia|]. auto.
-Qed.
-
-(* ---------- designators "NN" and "NN-j" ---------- *)
-
-Lemma digits_in w c : all_digits w = true -> In c w -> is_digit c = true.
-Proof. unfold all_digits. rewrite forallb_forall. auto. Qed.
-
-Lemma long_digits_not_shaped w : all_digits w = true -> 3 <= length w -> ~ refdes_shaped w.
-Proof.
-  intros A L (r & W1 & W2 & W3 & W4 & E). destruct r as [sg q e u].
-  cbn [r_seg r_qual r_ele r_sub] in *. unfold print_refdes in E. cbn [r_seg r_qual r_ele r_sub] in E.
-  destruct sg as [[|a sg]|].
-  - cbn in W1. discriminate.
-  - cbn [opt_ok wf_segid] in W1. apply andb_true_iff in W1 as [W1 _]. apply andb_true_iff in W1 as [W1 _].
-    assert (D : is_digit a = true).
-    { apply (digits_in w a A). destruct E as [-> | ->]; left; reflexivity. }
-    rewrite (digit_not_upper a D) in W1. discriminate.
-  - cbn [opt_str app] in E. destruct q as [q|].
-    + assert (D : is_digit "[" = true).
-      { apply (digits_in w _ A). destruct E as [-> | ->]; left; reflexivity. }
-      discriminate D.
-    + cbn [app] in E. destruct u as [u|].
-      * assert (D : is_digit "-" = true).
-        { apply (digits_in w _ A). destruct E as [-> | ->]; rewrite ?in_app_iff; [|left]; (right; left; reflexivity) || (left; rewrite in_app_iff; right; left; reflexivity). }
-        discriminate D.
-      * rewrite app_nil_r in E. destruct E as [-> | ->].
-        -- destruct e as [e|]; cbn [opt_str length] in L; [|lia].
-           cbn [opt_ok] in W3. apply andb_true_iff in W3 as [W3 _]. apply Nat.eqb_eq in W3. lia.
-        -- assert (D : is_digit (ascii_of_nat 10) = true).
-           { apply (digits_in _ _ A). rewrite in_app_iff. right. left. reflexivity. }
-           discriminate D.
-Qed.
-
-Lemma nth_res_nth_error {A} (xs : list A) : forall n c, nth_res xs n = Ok c -> nth_error xs n = Some c.
-Proof.
-  induction xs as [|x xs IH]; intros [|n] c H; cbn in *; try discriminate.
-  - injection H as ->. reflexivity.
-  - apply IH. exact H.
-Qed.
-
-Lemma nth_error_nth_res {A} (xs : list A) : forall n c, nth_error xs n = Some c -> nth_res xs n = Ok c.
-Proof.
-  induction xs as [|x xs IH]; intros [|n] c H; cbn in *; try discriminate.
-  - injection H as ->. reflexivity.
-  - apply IH. exact H.
-Qed.
-
-Definition rd_ele (i : nat) : refdes :=
-  {| r_seg := None; r_qual := None; r_ele := Some (fmt_02 (N.of_nat i)); r_sub := None |}.
-Definition rd_sub (i j : nat) : refdes :=
-  {| r_seg := None; r_qual := None; r_ele := Some (fmt_02 (N.of_nat i)); r_sub := Some (fmt_d (N.of_nat j)) |}.
-
-Lemma print_rd_ele i : print_refdes (rd_ele i) = fmt_02 (N.of_nat i).
-Proof. unfold print_refdes, rd_ele. cbn [r_seg r_qual r_ele r_sub opt_str app]. apply app_nil_r. Qed.
-
-Lemma print_rd_sub i j : print_refdes (rd_sub i j) = fmt_02 (N.of_nat i) ++ Html.l "-" ++ fmt_d (N.of_nat j).
-Proof. reflexivity. Qed.
-
-Lemma parse_ele s i : 1 <= i <= 99 ->
-  parse_refdes s (fmt_02 (N.of_nat i)) = Ok (Some (Z.of_nat (i - 1)), None).
-Proof.
-  intros Hi. destruct (fmt_02_small i Hi) as [W V].
-  rewrite <- print_rd_ele.
-  rewrite (refdes_indices s (rd_ele i) (fmt_02 (N.of_nat i))).
-  - unfold idx_of. rewrite V. cbn [rd_ele r_sub option_map]. do 3 f_equal. lia.
-  - unfold wf_refdes, rd_ele. cbn [r_seg r_qual r_ele r_sub opt_ok is_some implb orb andb]. rewrite W. reflexivity.
-  - reflexivity.
-  - left. reflexivity.
-Qed.
-
-Lemma parse_sub s i j : 1 <= i <= 99 -> 1 <= j ->
-  parse_refdes s (fmt_02 (N.of_nat i) ++ Html.l "-" ++ fmt_d (N.of_nat j)) = Ok (Some (Z.of_nat (i - 1)), Some (Z.of_nat (j - 1))).
-Proof.
-  intros Hi Hj. destruct (fmt_02_small i Hi) as [W V].
-  destruct (fmt_d_spec (N.of_nat j)) as (_ & Vj & _ & _).
-  pose proof (fmt_d_wf_sub (N.of_nat j) ltac:(lia)) as Wj.
-  rewrite <- print_rd_sub.
-  rewrite (refdes_indices s (rd_sub i j) (fmt_02 (N.of_nat i))).
-  - unfold idx_of. cbn [rd_sub r_sub option_map]. rewrite V, Vj. do 3 f_equal; [|f_equal]; lia.
-  - unfold wf_refdes, rd_sub. cbn [r_seg r_qual r_ele r_sub opt_ok is_some implb orb andb]. rewrite W, Wj. reflexivity.
-  - reflexivity.
-  - left. reflexivity.
-Qed.
-
-Lemma parse_big s i : 100 <= i -> parse_refdes s (fmt_02 (N.of_nat i)) = Ok (None, None).
-Proof.
-  intros Hi. destruct (fmt_02_big i Hi) as [A L]. unfold parse_refdes.
-  destruct (fmt_02 (N.of_nat i)) as [|c0 rest] eqn:E; [cbn in L; lia|].
-  assert (NS : ~ In SL (c0 :: rest)).
-  { intros I. pose proof (digits_in _ _ A I) as D. discriminate D. }
-  rewrite parse_path_rel by (intros ->; apply NS; left; reflexivity).
-  rewrite (split_notin SL (c0 :: rest) NS).
-  rewrite (parse_body_noref true [c0 :: rest] (c0 :: rest) []); [reflexivity | reflexivity | discriminate |].
-  apply long_digits_not_shaped; assumption.
-Qed.
-
-Lemma comp_at_spec s i c : 1 <= i -> seg_comp_at s (fmt_02 (N.of_nat i)) = Ok c ->
-  i <= 99 /\ nth_error (els s) (i - 1) = Some c.
-Proof.
-  intros Hi H. unfold seg_comp_at in H. destruct (le_lt_dec i 99) as [Le|Gt].
-  - split; [exact Le|]. rewrite parse_ele in H by lia. cbn [bind fst] in H.
-    rewrite py_nth_nat in H. apply nth_res_nth_error. exact H.
-  - rewrite parse_big in H by lia. cbn in H. discriminate H.
-Qed.
-
-Lemma get_ele d s i c : 1 <= i <= 99 -> nth_error (els s) (i - 1) = Some c ->
-  seg_get_value d s (fmt_02 (N.of_nat i)) = Ok (Some (format_comp (subele_term d) c)).
-Proof.
-  intros Hi N. unfold seg_get_value, seg_get. rewrite parse_ele by exact Hi. cbn [bind]. unfold get_ix. cbn [fst snd].
-  assert (Lt : i - 1 < length (els s)) by (apply nth_error_Some; congruence).
-  destruct (Z.leb_spec (Z.of_nat (length (els s))) (Z.of_nat (i - 1))); [lia|].
-  rewrite py_nth_nat, (nth_error_nth_res _ _ _ N). reflexivity.
-Qed.
-
-Lemma get_sub d s i j c : 1 <= i <= 99 -> nth_error (els s) (i - 1) = Some c -> 1 <= j <= length c ->
-  seg_get_value d s (fmt_02 (N.of_nat i) ++ Html.l "-" ++ fmt_d (N.of_nat j)) = Ok (Some (nth (j - 1) c [])).
-Proof.
-  intros Hi N Hj. unfold seg_get_value, seg_get. rewrite parse_sub by lia. cbn [bind]. unfold get_ix. cbn [fst snd].
-  assert (Lt : i - 1 < length (els s)) by (apply nth_error_Some; congruence).
-  destruct (Z.leb_spec (Z.of_nat (length (els s))) (Z.of_nat (i - 1))); [lia|].
-  rewrite py_nth_nat, (nth_error_nth_res _ _ _ N). cbn [bind].
-  destruct (Z.leb_spec (Z.of_nat (length c)) (Z.of_nat (j - 1))); [lia|].
-  rewrite py_nth_nat, (nth_res_ok c (j - 1) []) by lia. reflexivity.
-Qed.
-
 (* ---------- the text of the segment line ---------- *)
 
 Ltac bind_inv H :=
@@ -536,13 +377,6 @@ Proof.
     apply chunk_app; [exact C|]. apply chunk_app; [exact HS | exact IH].
 Qed.
 
-Lemma map_nth_seq {A} (d : A) : forall (c : list A) k, map (fun j => nth (j - k) c d) (seq k (length c)) = c.
-Proof.
-  induction c as [|a c IH]; intros k; [reflexivity|]. cbn [length seq map]. rewrite Nat.sub_diag. cbn [nth]. f_equal.
-  rewrite <- (IH (S k)) at 2. apply map_ext_in. intros j Hj. apply in_seq in Hj.
-  replace (j - k) with (S (j - S k)) by lia. reflexivity.
-Qed.
-
 Lemma format_comp_short sub c : length c <= 1 -> format_comp sub c = join sub c.
 Proof.
   destruct c as [|v [|w c]]; cbn [length]; intros H; [reflexivity | apply format_comp_single | lia].
@@ -553,63 +387,39 @@ Variables (x : xseg) (m : pos_map).
 Let s := xs_s x.
 Let d := xs_d x.
 
-Lemma tseg_subs_spec i c : 1 <= i <= 99 -> nth_error (els s) (i - 1) = Some c ->
-  forall js subs, (forall j, In j js -> 1 <= j <= length c) -> tseg_subs x m i js = Ok subs ->
-  Forall2 ochunk subs (map (fun j => nth (j - 1) c []) js).
+Lemma tseg_subs_spec i : forall subs j, Forall2 ochunk (tseg_subs m i j subs) subs.
 Proof.
-  intros Hi N. induction js as [|j js IH]; intros subs Hj H; cbn [tseg_subs] in H.
-  - injection H as <-. constructor.
-  - cbv zeta in H. fold s d in H. rewrite (get_sub d s i j c Hi N) in H by (apply Hj; left; reflexivity).
-    cbn [bind] in H. bind_inv H. injection H as <-. cbn [map]. constructor.
-    + destruct (pm_get m (Z.of_nat i)) as [[sp|]|]; try apply ochunk_esc.
-      destruct (sp =? Z.of_nat j)%Z; [apply ochunk_wrap|]; apply ochunk_esc.
-    + apply IH; [intros j' Hj'; apply Hj; right; exact Hj' | reflexivity].
+  induction subs as [|v subs IH]; intros j; cbn [tseg_subs]; [constructor|].
+  cbv zeta. constructor; [|apply IH].
+  destruct (pm_get m (Z.of_nat i)) as [[sp|]|]; try apply ochunk_esc.
+  destruct (sp =? Z.of_nat j)%Z; [apply ochunk_wrap|]; apply ochunk_esc.
 Qed.
 
-Lemma tseg_items_spec : forall is_ items tmp tmp',
-  (forall i, In i is_ -> 1 <= i) ->
-  tseg_items x m is_ = Ok items ->
-  seg_str_items (esc [subele_term d]) items = Ok tmp -> all_some tmp = Ok tmp' ->
-  Forall2 chunk tmp' (map (fun i => join (subele_term d) (nth (i - 1) (els s) [])) is_).
+Lemma tseg_items_spec : forall cs i tmp tmp',
+  seg_str_items (esc [subele_term d]) (tseg_items x m i cs) = Ok tmp -> all_some tmp = Ok tmp' ->
+  Forall2 chunk tmp' (map (join (subele_term d)) cs).
 Proof.
-  induction is_ as [|i is_ IH]; intros items tmp tmp' Hi H H1 H2; cbn [tseg_items] in H.
-  - injection H as <-. cbn in H1. injection H1 as <-. cbn in H2. injection H2 as <-. constructor.
-  - cbv zeta in H. fold s d in H. unfold seg_is_composite in H.
-    destruct (seg_comp_at s (fmt_02 (N.of_nat i))) as [c|e] eqn:C; [|discriminate H].
-    cbn [bind] in H.
-    assert (I1 : 1 <= i) by (apply Hi; left; reflexivity).
-    destruct (comp_at_spec s i c I1 C) as [I2 N].
-    assert (Nc : nth (i - 1) (els s) [] = c) by (apply nth_error_nth; exact N).
-    cbn [map]. rewrite Nc.
-    destruct (1 <? length c)%nat eqn:L.
-    + unfold seg_ele_len in H. rewrite C in H. cbn [bind] in H.
-      destruct (tseg_subs x m i (seq 1 (length c))) as [subs|] eqn:Es; [|discriminate H]. cbn [bind] in H.
-      destruct (tseg_items x m is_) as [more|] eqn:Em; [|discriminate H]. cbn [bind] in H. injection H as <-.
-      cbn [seg_str_items] in H1.
-      destruct (all_some subs) as [a'|] eqn:Ea; [|discriminate H1]. cbn [bind] in H1.
-      destruct (seg_str_items (esc [subele_term d]) more) as [tmore|] eqn:Et; [|discriminate H1]. cbn [bind] in H1.
-      injection H1 as <-.
+  induction cs as [|c cs IH]; intros i tmp tmp' H1 H2; cbn [tseg_items] in H1.
+  - cbn in H1. injection H1 as <-. cbn in H2. injection H2 as <-. constructor.
+  - fold s d in H1. cbn [map]. destruct (1 <? length c)%nat eqn:L.
+    + cbn [seg_str_items] in H1.
+      destruct (all_some (tseg_subs m i 1 c)) as [a'|] eqn:Ea; [|discriminate H1]. cbn [bind] in H1.
+      destruct (seg_str_items (esc [subele_term d]) (tseg_items x m (S i) cs)) as [tmore|] eqn:Et; [|discriminate H1].
+      cbn [bind] in H1. injection H1 as <-.
       cbn [all_some] in H2. bind_inv H2. injection H2 as <-.
       constructor.
       * apply join_chunk; [apply chunk_esc1|].
-        apply (all_some_chunks subs); [|assumption].
-        assert (G : Forall2 ochunk subs (map (fun j => nth (j - 1) c []) (seq 1 (length c)))).
-        { apply (tseg_subs_spec i c); [lia | exact N | | assumption].
-          intros j Hj. apply in_seq in Hj. lia. }
-        pose proof (map_nth_seq ([] : str) c 1) as Mc. rewrite <- Mc. exact G.
-      * eapply IH; eauto. intros i' Hi'. apply Hi. right. exact Hi'.
-    + apply Nat.ltb_ge in L.
-      rewrite (get_ele d s i c) in H by (auto; lia). cbn [bind] in H.
-      destruct (tseg_items x m is_) as [more|] eqn:Em; [|discriminate H]. cbn [bind] in H. injection H as <-.
-      cbn [seg_str_items] in H1.
-      destruct (seg_str_items (esc [subele_term d]) more) as [tmore|] eqn:Et; [|discriminate H1]. cbn [bind] in H1.
-      injection H1 as <-.
+        apply (all_some_chunks (tseg_subs m i 1 c)); [apply tseg_subs_spec | assumption].
+      * eapply IH; eauto.
+    + apply Nat.ltb_ge in L. cbv zeta in H1. cbn [seg_str_items] in H1.
+      destruct (seg_str_items (esc [subele_term d]) (tseg_items x m (S i) cs)) as [tmore|] eqn:Et; [|discriminate H1].
+      cbn [bind] in H1. injection H1 as <-.
       match type of H2 with all_some (?o :: _) = _ => assert (O : ochunk o (join (subele_term d) c)) end.
       { rewrite <- (format_comp_short (subele_term d) c L).
         destruct (pm_get m (Z.of_nat i)); [apply ochunk_wrap|]; apply ochunk_esc. }
       destruct O as (t & Eo & Ct). rewrite Eo in H2. cbn [all_some] in H2. bind_inv H2. injection H2 as <-.
       constructor; [exact Ct|].
-      eapply IH; eauto. intros i' Hi'. apply Hi. right. exact Hi'.
+      eapply IH; eauto.
 Qed.
 
 End Items.
@@ -635,14 +445,14 @@ Proof.
     apply digits_free. apply fmt_d_spec.
 Qed.
 
-Lemma seg_line_chunk x m t_seg body :
-  tseg_items x m (seq 1 (length (els (xs_s x)))) = Ok t_seg ->
-  html_seg_str (cfg_of (xs_d x)) (sid (xs_s x)) t_seg = Ok body ->
+Lemma seg_line_chunk x m body :
+  html_seg_str (cfg_of (xs_d x)) (sid (xs_s x)) (tseg_items x m 1 (els (xs_s x))) = Ok body ->
   chunk body (plain_seg (xs_d x) (xs_s x)).
 Proof.
-  intros Et Eb. unfold html_seg_str in Eb. destruct (sid (xs_s x)) as [sid0|] eqn:Es; [|discriminate Eb].
+  intros Eb. unfold html_seg_str in Eb. destruct (sid (xs_s x)) as [sid0|] eqn:Es; [|discriminate Eb].
   unfold seg_str in Eb. cbn [cfg_of hc_seg_term hc_ele_term hc_subele_term] in Eb.
-  destruct (seg_str_items (esc [subele_term (xs_d x)]) t_seg) as [tmp|] eqn:E1; [|discriminate Eb]. cbn [bind] in Eb.
+  destruct (seg_str_items (esc [subele_term (xs_d x)]) (tseg_items x m 1 (els (xs_s x)))) as [tmp|] eqn:E1; [|discriminate Eb].
+  cbn [bind] in Eb.
   destruct (all_some tmp) as [tmp'|] eqn:E2; [|discriminate Eb]. cbn [bind] in Eb. injection Eb as <-.
   unfold plain_seg. rewrite Es. cbn [show_sid].
   apply chunk_app; [apply chunk_esc|].
@@ -651,9 +461,6 @@ Proof.
   apply chunk_app; [apply chunk_esc1|].
   apply chunk_app.
   - apply join_chunk; [apply chunk_esc1|].
-    assert (G := tseg_items_spec x m _ _ _ _ (fun i Hi => proj1 (proj1 (in_seq _ _ _) Hi)) Et E1 E2).
-    rewrite <- (map_map (fun i => nth (i - 1) (els (xs_s x)) []) (join (subele_term (xs_d x)))) in G.
-    pose proof (map_nth_seq ([] : composite) (els (xs_s x)) 1) as Mc.
-    rewrite Mc in G. exact G.
+    exact (tseg_items_spec x m _ _ _ _ E1 E2).
   - unfold hc_eol. rewrite app_nil_r. apply chunk_esc1.
 Qed.
